@@ -6,6 +6,7 @@ import (
 	"go/types"
 	"os"
 	"strconv"
+	"strings"
 
 	"golang.org/x/tools/go/ssa"
 
@@ -175,4 +176,181 @@ func witnessIP(w map[int]bool, n int) string {
 		s += strconv.Itoa(v)
 	}
 	return s + "]"
+}
+
+// c04RoundTripExact decides the first sentence of the property end to end:
+// IPFromReversedAddr(IPToReversedAddr(a)) == a for every address.  The encoder
+// is evaluated on symbolic address bytes as in c04EncoderExact; its result —
+// a string whose length and bytes are Boolean functions of the address bits,
+// one case per combination of digit counts — is then handed, case by case and
+// under the condition of the case, to the *whole* decoder: TrimSuffix,
+// ValidateDomainName (idna.ToASCII is the identity on these names: ASCII
+// without an "xn--" label, which is checked on the symbolic bytes), the
+// deferred wrapper, the lowering, the suffix dispatch and the family decoder,
+// with the library scanners and netip given their exact meaning.  The result
+// must be err == nil and the address a (an IPv4-mapped a comes back as IPv4).
+func c04RoundTripExact(c *Ctx) bool {
+	const rule = "C04.roundtrip-exact"
+	enc := c.fn("netutil", "IPToReversedAddr")
+	dec := c.fn("netutil", "IPFromReversedAddr")
+	if enc == nil || dec == nil || len(enc.Params) != 1 || len(dec.Params) != 1 {
+		return false
+	}
+	type scenario struct {
+		name string
+		n    int
+		kind string
+	}
+	scs := []scenario{{"a 4-byte address", 4, "4"}, {"a 16-byte IPv4-mapped address", 16, "mapped"}, {"a 16-byte IPv6 address", 16, "6"}}
+	type verdict struct {
+		ok  bool
+		why string
+	}
+	var out []verdict
+	for _, sc := range scs {
+		m := boolfn.New()
+		ev := &boolfn.Eval{M: m, Entered: map[string]bool{}, ErrorsAsBits: true, ForcePath: true, Steps: 2000000}
+		ev.InScope = core.InModule
+		model := &netipModel{ev: ev, fresh: 1 << 20}
+		in := ev.StringInput(0, sc.n)
+		ev.Override = func(name string, call *ssa.CallCommon, args []boolfn.Val) (boolfn.Val, bool) {
+			switch {
+			case strings.HasSuffix(name, "/netutil.replaceKind"):
+				return boolfn.Opaque("void"), true
+			case strings.HasSuffix(name, "/errors.Unwrap") || name == "errors.Unwrap":
+				if len(args) == 1 && args[0].Kind == boolfn.KBits {
+					return args[0], true
+				}
+			}
+			return boolfn.Val{}, false
+		}
+		ev.OnCall = func(name string, call *ssa.CallCommon, args []boolfn.Val) (boolfn.Val, bool) {
+			switch name {
+			case "(net.IP).To4":
+				switch {
+				case sc.kind == "4":
+					return args[0], true
+				case sc.kind == "mapped":
+					return boolfn.Window(args[0], 12, 16), true
+				}
+				return boolfn.Nil(), true
+			case "(net.IP).To16":
+				if sc.n == 16 {
+					return args[0], true
+				}
+				return boolfn.Val{}, false
+			case "(net.IP).String":
+				return boolfn.Str("?"), true
+			case "golang.org/x/net/idna.ToASCII":
+				// the identity on ASCII names without an ACE label
+				if ev.IsPlainASCII(args[0]) {
+					return boolfn.Val{Kind: boolfn.KTuple, Tuple: []boolfn.Val{args[0], boolfn.BoolVal(0)}}, true
+				}
+				return boolfn.Val{}, false
+			}
+			if r, ok := model.OnCall(name, call, args); ok {
+				return r, true
+			}
+			if res := call.Signature().Results(); res.Len() == 1 && res.At(0).Type().String() == "error" {
+				return boolfn.BoolVal(1), true
+			}
+			if name == "fmt.Sprintf" {
+				return boolfn.Str("?"), true
+			}
+			return boolfn.Val{}, false
+		}
+		rs, err := ev.Call(enc, []boolfn.Val{in})
+		var alts []boolfn.Alt
+		if err == nil && len(rs) == 2 {
+			alts, err = ev.Expand(rs[0])
+		}
+		if err != nil || len(alts) == 0 {
+			if os.Getenv("GSA_DBG") != "" {
+				fmt.Fprintln(os.Stderr, "exact round trip: encoder,", sc.name, err)
+			}
+			c.L.Notef("the round trip is outside the exact evaluator's grammar (encoder, %s: %v)", sc.name, err)
+			return false
+		}
+		src := in.Elems
+		if sc.kind == "mapped" {
+			src = in.Elems[12:16]
+		}
+		v := verdict{true, sprintf("for all 2^%d values of %s (%d cases of the name's length): the decoder returns the address", 8*len(src), sc.name, len(alts))}
+		// every spelling the property allows: any letter case (one free Boolean
+		// per byte decides whether a letter is written in upper case) and an
+		// optional trailing dot
+		type spelling struct {
+			bytes [][]int
+			cond  int
+		}
+		var spell []spelling
+		nextVar := 1 << 19
+		for _, a := range alts {
+			mixed := make([][]int, len(a.Bytes))
+			for i, bt := range a.Bytes {
+				lower := m.And(m.Not(ev.Ult8(bt, 'a')), m.Not(ev.Ult8c('z', bt)))
+				up := m.And(lower, m.Var(nextVar))
+				nextVar++
+				nb := append([]int(nil), bt...)
+				nb[5] = m.And(bt[5], m.Not(up))
+				mixed[i] = nb
+			}
+			dot := ev.Const('.', 8, false).Bits
+			spell = append(spell,
+				spelling{a.Bytes, a.Cond},
+				spelling{append(append([][]int(nil), a.Bytes...), dot), a.Cond},
+				spelling{mixed, a.Cond},
+				spelling{append(append([][]int(nil), mixed...), dot), a.Cond})
+		}
+		v.why = sprintf("for all 2^%d values of %s (%d cases of the name's length, each in lower case, in every mix of letter cases, with and without a trailing dot): the decoder returns the address", 8*len(src), sc.name, len(alts))
+		for _, a := range spell {
+			a := struct {
+				Bytes [][]int
+				Cond  int
+			}{a.bytes, a.cond}
+			ev.Assume = a.Cond
+			drs, derr := ev.Call(dec, []boolfn.Val{boolfn.Bytes(a.Bytes)})
+			if derr != nil || len(drs) != 2 || drs[1].Kind != boolfn.KBits || len(drs[1].Bits) != 1 {
+				if os.Getenv("GSA_DBG") != "" {
+					fmt.Fprintln(os.Stderr, "exact round trip: decoder,", sc.name, derr)
+				}
+				c.L.Notef("the round trip is outside the exact evaluator's grammar (decoder on the name of %s: %v)", sc.name, derr)
+				return false
+			}
+			if d := m.And(a.Cond, drs[1].Bits[0]); d != 0 {
+				v = verdict{false, "the name of the address " + witnessIP(m.Witness(d), sc.n) + " is refused by the decoder"}
+				break
+			}
+			if drs[0].Kind != boolfn.KArray || len(drs[0].Elems) != 17 {
+				v = verdict{false, "the decoder's result is not an address"}
+				break
+			}
+			want4 := 0
+			if sc.kind != "6" {
+				want4 = 1
+			}
+			if d := m.And(a.Cond, m.Xor(drs[0].Elems[16][0], want4)); d != 0 {
+				v = verdict{false, "the address " + witnessIP(m.Witness(d), sc.n) + " comes back in the other family"}
+				break
+			}
+			bad := false
+			for i := range src {
+				for b := 0; b < 8 && !bad; b++ {
+					if d := m.And(a.Cond, m.Xor(drs[0].Elems[i][b], src[i][b])); d != 0 {
+						v = verdict{false, sprintf("the address %s comes back with a different byte %d", witnessIP(m.Witness(d), sc.n), i)}
+						bad = true
+					}
+				}
+			}
+			if bad {
+				break
+			}
+		}
+		out = append(out, v)
+	}
+	c.L.Floor(rule, len(scs))
+	for i, v := range out {
+		c.check(v.ok, rule, dec, "IPFromReversedAddr(IPToReversedAddr(a)) == a for "+scs[i].name, nil, v.why)
+	}
+	return true
 }
